@@ -27,6 +27,8 @@ UNDECIDED_MSGS = ('rlimit', 'Resource limit', 'timed out', 'timeout')
 def load_units():
     units = {}
     for p in sorted(glob.glob(os.path.join(VERIF, 'units', '*.json'))):
+        if p.endswith('.inc.json'):
+            continue
         u = json.load(open(p))
         units[u['name']] = u
     return units
